@@ -77,7 +77,7 @@ def _chunk(args):
     check = __import__(modname, fromlist=['x'])
     if extra:
         check.configure(extra)
-    agg = {'runs': 0, 'nontrivial': 0, 'steps': 0, 'sim_time': 0.0, 'faults': {}, 'probes': {},
+    agg = {'runs': 0, 'evals': 0, 'nontrivial': 0, 'steps': 0, 'sim_time': 0.0, 'faults': {}, 'probes': {},
            'unspecified': 0, 'digests': set(), 'ntkeys': set(), 'violations': [], 'errors': [], 'samples': [],
            'first': start, 'last': start}
     for i in range(start, start + count):
@@ -99,11 +99,15 @@ def _chunk(args):
         _merge_counts(agg['faults'], res.get('faults'))
         _merge_counts(agg['probes'], res.get('probes'))
         d = res.get('digest')
+        agg['evals'] += res.get('evals', 1)
         if d is not None:
             agg['digests'].add(d)
             if res.get('nontrivial'):
                 agg['nontrivial'] += 1
-                agg['ntkeys'].add(d)
+                if res.get('dkeys') is not None:
+                    agg['ntkeys'].update(res['dkeys'])
+                else:
+                    agg['ntkeys'].add(d)
         if res.get('sample') is not None and len(agg['samples']) < 2 and res.get('nontrivial'):
             agg['samples'].append({'case': i, 'scenario': sc, 'trace': res['sample']})
         v = res.get('violation')
@@ -298,7 +302,7 @@ def main(check, argv=None):
         return 0
 
     chunk = getattr(check, 'CHUNK', {}).get(tier, 40)
-    total = {'runs': 0, 'nontrivial': 0, 'steps': 0, 'sim_time': 0.0, 'faults': {}, 'probes': {},
+    total = {'runs': 0, 'evals': 0, 'nontrivial': 0, 'steps': 0, 'sim_time': 0.0, 'faults': {}, 'probes': {},
              'unspecified': 0, 'digests': set(), 'ntkeys': set(), 'violations': [], 'errors': [], 'samples': [],
              'vcount': 0}
     next_index = args.start
@@ -330,7 +334,7 @@ def main(check, argv=None):
                 except BaseException as e:   # noqa
                     print('HARNESS-ERROR worker died: %r' % (e,))
                     os._exit(2)
-                for k in ('runs', 'nontrivial', 'steps', 'sim_time', 'unspecified'):
+                for k in ('runs', 'evals', 'nontrivial', 'steps', 'sim_time', 'unspecified'):
                     total[k] += agg[k]
                 total['vcount'] += agg.get('vcount', 0)
                 _merge_counts(total['faults'], agg['faults'])
@@ -404,7 +408,7 @@ def main(check, argv=None):
             'violations': len(reported),
             'assumptions': list(check.ASSUMPTIONS),
             'coverage': {
-                'evaluations': total['runs'],
+                'evaluations': total['evals'],
                 'distinct_nontrivial': len(total['ntkeys']),
                 'rule': check.RULE,
                 'samples': total['samples'][:3] or [{'note': 'no non-trivial sample captured'}],
